@@ -33,9 +33,18 @@ class C15(Prop):
         from nxslib.proto.serialframe import SerialFrame
         self.ParseRecv, self.ParseRecvCb, self.Parser, self.SerialFrame = ParseRecv, ParseRecvCb, Parser, SerialFrame
 
-    def _recv(self, user):
-        n = lambda d: None
-        return self.ParseRecv(self.ParseRecvCb(n, n, n, n, n), self.SerialFrame, sg.real_user(user))
+    _encoders = {}
+
+    def _recv(self, user, fresh=False):
+        """one long-lived device-side encoder per user-type configuration (a device keeps its encoder)"""
+        key = sg.user_str(user)
+        if fresh or key not in self._encoders:
+            n = lambda d: None
+            enc = self.ParseRecv(self.ParseRecvCb(n, n, n, n, n), self.SerialFrame, sg.real_user(user))
+            if fresh:
+                return enc
+            self._encoders[key] = enc
+        return self._encoders[key]
 
     def cases(self, rng, tier):
         T = tier == "thorough"
@@ -134,7 +143,11 @@ class C15(Prop):
         fr = self.SerialFrame().frame_decode(f)
         if fr.err != 0 or int(fr.fid) != 1:
             return {"key": "bad-frame", "what": "encoder output is not a valid STREAM frame", "expected": "STREAM", "observed": str(fr.err)}
-        ds = self.Parser(user_types=sg.real_user(user)).frame_stream_decode(fr, sg.real_device(layout))
+        try:
+            ds = self.Parser(user_types=sg.real_user(user)).frame_stream_decode(fr, sg.real_device(layout))
+        except Exception as e:
+            return {"key": "round-trip", "what": f"the client decoder raises {type(e).__name__} on the frame the device-side encoder built "
+                    "for representable samples", "expected": "the samples", "observed": exc_name(e), "payload": hexs(fr.data)[:200]}
         got = sg.canon_decoded(ds, layout, user, fr.data)
         exp = []
         for c, ty, vd, ml, data, meta in keep:
